@@ -360,6 +360,14 @@ theorem slow_simplex_infeasible_exact {lm : LinModel (Ext K)} (hW : WF lm) {s : 
     ¬ ∃ x, LinFeasible lm x :=
   phase1_negative_infeasible hW hs stallExtra limit prefer hok hneg
 
+/-- **a tableau handed to the loop witnesses feasibility**: whenever `into_tableau` yields a canonical feasible tableau of
+the standard form (`CanonicalFor`, see `slow_simplex_start_partial`), `lm` HAS a feasible point (the mapped-back basic
+solution).  Hence on an infeasible `lm` the path can only stop at the start, never answer a solution or `Unbounded`. -/
+theorem slow_simplex_start_feasible {lm : LinModel (Ext K)} (hW : WF lm) {s : StdModel (Ext K)}
+    (hs : standardize lm = .ok s) {T : Tab K} (hT : CanonicalFor T (stdK s)) :
+    LinFeasible lm (preimage lm (basicSolution T)) :=
+  canonicalFor_feasible hW hs hT
+
 /-- the loop has exactly three outcomes; the third (`IterationLimitReached`) is reported as `LimitReached` and
 carries no claim. -/
 theorem slow_simplex_outcomes (tol : K) (stallExtra limit : Nat) (prefer : List Nat) (T : Tab K) :
